@@ -21,9 +21,9 @@ RULE = ("seeded random functional DAGs over the op table (1-4 leaves from a broa
 ASSUMPTIONS = ["NumPy longdouble evaluation of the same statements is the reference semantics",
                "points where one-sided derivatives disagree (kinks) and ill-conditioned stencils are skipped and counted",
                "ndim<=3, sides<=3, tensors <=48 elements"]
-TIERS = {"quick": {"cases": 4000, "nodes": (2, 10)}, "thorough": {"cases": 12000, "nodes": (3, 30)}}
+TIERS = {"quick": {"cases": 4000, "nodes": (2, 10)}, "thorough": {"cases": 100000, "nodes": (3, 30)}}
 FLOORS = {"quick": {"fd_ok": 12000, "meta_compared": 30000, "dep_checked": 20000},
-          "thorough": {"fd_ok": 60000, "meta_compared": 60000, "dep_checked": 60000}}
+          "thorough": {"fd_ok": 60000, "meta_compared": 150000, "dep_checked": 100000}}
 SKIP_BUDGET = {"fd": ("fd_skipped", "fd_dirs", 0.15)}
 TAU = 1e-8
 
